@@ -4,9 +4,9 @@ import (
 	"fmt"
 	"go/types"
 	"os"
-	"strconv"
 	"path/filepath"
 	"sort"
+	"strconv"
 	"strings"
 	"sync"
 
@@ -16,25 +16,26 @@ import (
 )
 
 type Engine struct {
-	prog       *ssa.Program
-	pkgs       []*packages.Package
-	spkgs      []*ssa.Package
-	db         *ContractDB
-	cellCache  map[*ssa.Alloc]bool
-	typeTags   map[string]int
-	strIDs     map[string]int
-	globIDs    map[*ssa.Global]int
-	globRO     map[*ssa.Global]bool
-	ghostTypes map[string]*CType
-	maxInline  int
-	inlineOK   map[*ssa.Function]bool
-	byName     map[string]*types.Package
-	funcs      map[string]*ssa.Function
-	mu         sync.Mutex
-	repo       string
-	exprIDs    map[*CExpr]int
-	traced     map[string]bool // functions whose calls are recorded in call-trace ghosts
-	tagTypes   map[int]types.Type
+	prog           *ssa.Program
+	pkgs           []*packages.Package
+	spkgs          []*ssa.Package
+	db             *ContractDB
+	stablePrefixes []string
+	cellCache      map[*ssa.Alloc]bool
+	typeTags       map[string]int
+	strIDs         map[string]int
+	globIDs        map[*ssa.Global]int
+	globRO         map[*ssa.Global]bool
+	ghostTypes     map[string]*CType
+	maxInline      int
+	inlineOK       map[*ssa.Function]bool
+	byName         map[string]*types.Package
+	funcs          map[string]*ssa.Function
+	mu             sync.Mutex
+	repo           string
+	exprIDs        map[*CExpr]int
+	traced         map[string]bool // functions whose calls are recorded in call-trace ghosts
+	tagTypes       map[int]types.Type
 }
 
 func repoDir() string {
@@ -460,6 +461,28 @@ func (eng *Engine) mentionsCallTrace(x *CExpr) bool {
 	}
 	for _, a := range x.Args {
 		if eng.mentionsCallTrace(a) {
+			return true
+		}
+	}
+	return false
+}
+
+// isStableKey: heap family of a field declared with `stablefield`.
+func (eng *Engine) isStableKey(key string) bool {
+	if len(eng.db.StableFields) == 0 || !strings.HasPrefix(key, "F|") {
+		return false
+	}
+	if eng.stablePrefixes == nil {
+		eng.stablePrefixes = []string{}
+		for f := range eng.db.StableFields {
+			i := strings.LastIndexByte(f, '.')
+			if i > 0 {
+				eng.stablePrefixes = append(eng.stablePrefixes, "F|"+f[:i]+"|"+f[i+1:]+"|")
+			}
+		}
+	}
+	for _, p := range eng.stablePrefixes {
+		if strings.HasPrefix(key, p) {
 			return true
 		}
 	}
